@@ -311,8 +311,55 @@ def randref_dereferenced(recipe):
                for n in names)
 
 
+def once_children_names(recipe):
+    """tables / nicknames whose rows are created ONLY below a just_once template (in its friends or in
+    objects nested in its fields): a continued run skips the template, so it creates none of them, and
+    the rows of earlier runs are not in its history"""
+    inside, outside = set(), set()
+
+    def names(t):
+        return {t["table"]} | ({t["nick"]} if t.get("nick") else set())
+
+    def sub(t, acc):
+        for _, d in t["fields"]:
+            if d[0] == "nested":
+                acc |= names(d[1])
+                sub(d[1], acc)
+        if t.get("count") and t["count"][0] == "nested":
+            acc |= names(t["count"][1])
+            sub(t["count"][1], acc)
+        for st in t["friends"]:
+            if st[0] == "obj":
+                acc |= names(st[1])
+                sub(st[1], acc)
+            elif st[2][0] == "nested":
+                acc |= names(st[2][1])
+                sub(st[2][1], acc)
+    for st in recipe["stmts"]:
+        if st[0] == "obj":
+            if st[1].get("once"):
+                outside |= names(st[1])          # the just_once rows themselves are re-saved on load
+                sub(st[1], inside)
+            else:
+                outside |= names(st[1])
+                sub(st[1], outside)
+        elif st[2][0] == "nested":
+            outside |= names(st[2][1])
+            sub(st[2][1], outside)
+    return inside - outside
+
+
 def match_finding(case, obs, msg, findings):
     for f in findings:
+        if f["id"] == "K11" and msg.startswith("continued-run-fails") and "There is no table or nickname" in msg:
+            # second symptom of K11: the target of a random_reference has rows only below a just_once template
+            import re as _re
+            runs = obs.get("runs", [])
+            bad_i = next((i for i, r in enumerate(runs) if "ok" not in r), None)
+            m = _re.search(r"There is no table or nickname `([^`]*)`", (runs[bad_i] if bad_i is not None else {}).get("msg", ""))
+            if bad_i and m and m.group(1) in once_children_names(case["recipe"]) and \
+                    ('["randref", "%s"]' % m.group(1)) in __import__("json").dumps(case["recipe"]["stmts"]):
+                return "K11"
         if f["id"] == "K11" and msg.startswith("continued-run-fails") and randref_dereferenced(case["recipe"]):
             # only when the row that could not be loaded is one the continuation file does not carry; a row
             # that IS in the file and still cannot be found is a different defect (cf. /repo 0aad1fc)
